@@ -18,6 +18,7 @@ those tables; see rules/*.py.
 from __future__ import annotations
 
 import ast
+import os
 from typing import Dict, FrozenSet, Iterable, List, Optional, Set, Tuple
 
 from .model import AnalysisError, ClassInfo, FunctionInfo, Module, Program
@@ -537,6 +538,9 @@ class Interp:
             elif k == "ext":
                 if a[1] == "sys" and attr == "version_info":
                     out.add(("const", self.version))
+                elif a[1].count(".") >= 4:
+                    # widening: attribute chains on an external object are cut (x.a.b.c.d.e... of a value that came out of a library call)
+                    out |= self.synth("attr", a)
                 else:
                     out.add(("ext", a[1] + "." + attr))
             elif k in ("der", "const", "func", "bound", "lam", "extm"):
@@ -1149,6 +1153,10 @@ class Interp:
     def call_function(self, fr, fi: FunctionInfo, pos, kw, node, starkw: Value = EMPTY) -> Value:
         pos = [p if isinstance(p, tuple) and len(p) == 2 and p[0] in ("pos", "star") else ("pos", p) for p in pos]
         self.calls_resolved += 1
+        if self.calls_resolved % 256 == 0 and getattr(self, "_deadline", None) is not None:
+            import time as _time
+            if _time.time() > self._deadline:
+                raise AnalysisError(f"abstract interpretation exceeded its time budget while analysing {fi.qual}: the fixpoint does not settle (a widening is missing) - not decided")
         caller = fr.fn.qual if fr.fn is not None else f"{fr.module.name}::<module>"
         self.call_edges.add((caller, fi.qual))
         site = (fr.module.name, getattr(node, "lineno", 0), getattr(node, "col_offset", 0)) if node is not None else ("implicit", fi.qual)
@@ -1870,6 +1878,8 @@ class Interp:
             args.update(extra)
         fr = Frame(None, fi.module, (), Env())
         ret = EMPTY
+        import time as _time
+        self._deadline = _time.time() + float(os.environ.get("VERIF_ENTRY_BUDGET_S", "240"))
         for i in range(max_passes):
             self.passes += 1
             v0 = self.ver
